@@ -146,7 +146,7 @@ open Udp
 sits in the pooled socket (late answers of earlier borrowers, duplicates, short or malformed
 datagrams) and however the socket was used before; the message it returns is one of the datagrams
 that arrived, and it gives up after `maxStale` skipped ones. -/
-theorem udp_id_match (ops : List Op) (orig : Nat) (r : Res) (h : (orig, r) ∈ results ⟨[], 0⟩ ops) :
+theorem udp_id_match (ops : List Op) (orig : Nat) (r : Res) (h : (orig, r) ∈ results ⟨[], 0, false⟩ ops) :
     (∀ id b, r.out = .ok id b → id = orig) ∧ (∀ id b, r.out = .truncated id b → id = orig) :=
   results_spec ops _ orig r h
 
@@ -168,10 +168,10 @@ theorem udp_flood_discards_socket (orig : Nat) (dot : Bool) (q : List Ev)
 right one returned; with a colliding ID the late answer IS returned (its question is then refused by
 the controller, §1). -/
 example :
-    (results ⟨[], 0⟩ [.fwd 7 false true, .push (.dgram 7 (some ⟨1, false, 10⟩)), .fwd 8 false true,
+    (results ⟨[], 0, false⟩ [.fwd 7 false true, .push (.dgram 7 (some ⟨1, false, 10⟩)), .fwd 8 false true,
         .push (.dgram 8 (some ⟨2, false, 20⟩)), .fwd 8 false true]).map (fun p => p.2.out)
       = [.timeout, .timeout, .ok 8 ⟨2, false, 20⟩] ∧
-    (results ⟨[], 0⟩ [.fwd 7 false true, .push (.dgram 7 (some ⟨1, false, 10⟩)), .fwd 7 false true]).map
+    (results ⟨[], 0, false⟩ [.fwd 7 false true, .push (.dgram 7 (some ⟨1, false, 10⟩)), .fwd 7 false true]).map
         (fun p => p.2.out) = [.timeout, .ok 7 ⟨1, false, 10⟩] := by decide
 
 end Udp
